@@ -127,9 +127,12 @@ impl EventGen for Container {
                     break;
                 }
             }
-            if let (true, Some(text)) = (self.0.is_graphics_element(), &inner_text) {
+            // a shape with text content - or no content at all: `<rect ..></rect>` is `<rect ../>`
+            if self.0.is_graphics_element() && (inner_text.is_some() || inner_events.is_empty()) {
                 let mut el = self.0.clone();
-                el.set_attr("text", text);
+                if let Some(text) = &inner_text {
+                    el.set_attr("text", text);
+                }
                 if let Some((start, _end)) = self.0.event_range {
                     el.event_range = Some((start, start)); // emulate an Empty element
                 }
